@@ -94,8 +94,16 @@ LexNum(t, i) ==
 \* /regex/flags
 RECURSIVE FlagsEnd(_, _)
 FlagsEnd(t, i) == IF i <= Len(t) /\ t[i] \in {105, 109, 115} THEN FlagsEnd(t, i + 1) ELSE i
+\* ... and the literal of a target that takes regular expressions VERBATIM: delimited by broken bars (code point 166,
+\* which no expression contains), nothing escaped, nothing to undo
+RECURSIVE NextAt(_, _, _)
+NextAt(t, i, q) == IF i > Len(t) THEN 0 ELSE IF t[i] = q THEN i ELSE NextAt(t, i + 1, q)
 LexRegex(t, i) ==
-    IF i <= Len(t) /\ t[i] = 47 THEN
+    IF i <= Len(t) /\ t[i] = 166 THEN
+        LET c == NextAt(t, i + 1, 166) IN
+        IF c = 0 THEN [ok |-> FALSE, i |-> 0, v |-> <<>>, fl |-> <<>>]
+        ELSE [ok |-> TRUE, i |-> FlagsEnd(t, c + 1), v |-> Slice(t, i + 1, c - 1), fl |-> Slice(t, c + 1, FlagsEnd(t, c + 1) - 1)]
+    ELSE IF i <= Len(t) /\ t[i] = 47 THEN
         LET c == CloseAt(t, i + 1, 47) IN
         IF c = 0 THEN [ok |-> FALSE, i |-> 0, v |-> <<>>, fl |-> <<>>]
         ELSE [ok |-> TRUE, i |-> FlagsEnd(t, c + 1), v |-> Unescape(Slice(t, i + 1, c - 1)),
